@@ -710,4 +710,46 @@ def top : Val N → Val N
 
 end Spec
 
+/-! ## defined names (lib.go `getDefinedNameRefTo`) -/
+
+/-- one entry of `GetDefinedName()`: scope is `"Workbook"` or a sheet name -/
+structure DefName where
+  name : Str
+  scope : Str
+  refersTo : Str
+  deriving DecidableEq, Repr
+
+def sWorkbook : Str := [87, 111, 114, 107, 98, 111, 111, 107]
+
+namespace Impl
+
+/-- the loop of `getDefinedNameRefTo`: (workbookRefTo, worksheetRefTo), later entries overwrite -/
+def scanNames (n cur : Str) : List DefName → Str × Str → Str × Str
+  | [], acc => acc
+  | d :: rest, (wb, ws) =>
+    if d.name = n then
+      let wb' := if d.scope = sWorkbook then d.refersTo else wb
+      let ws' := if d.scope = cur then d.refersTo else ws
+      scanNames n cur rest (wb', ws')
+    else scanNames n cur rest (wb, ws)
+
+/-- `getDefinedNameRefTo(name, currentSheet)`: worksheet scope wins when it is non-empty;
+`[]` = no visible definition (the token keeps its text) -/
+def definedNameRefTo (defs : List DefName) (n cur : Str) : Str :=
+  let r := scanNames n cur defs ([], [])
+  if r.2 ≠ [] then r.2 else r.1
+
+end Impl
+
+namespace Spec
+
+/-- Excel's rule: a name scoped to the formula's sheet shadows the workbook-scoped one; a name
+scoped to another sheet is not visible -/
+def resolveName (defs : List DefName) (n cur : Str) : Option Str :=
+  match defs.find? (fun d => d.name = n ∧ d.scope = cur) with
+  | some d => some d.refersTo
+  | none => (defs.find? (fun d => d.name = n ∧ d.scope = sWorkbook)).map (·.refersTo)
+
+end Spec
+
 end XlModel.Calc
